@@ -171,6 +171,9 @@ func Identify(t pub.Tangible) string {
 		return "actor " + name
 	case *pub.Activity:
 		actor := plain(x.Actor().Name())
+		if _, none := x.Actor().(*pub.Failure); none {
+			actor = "nobody"
+		}
 		tok := actor
 		if i := strings.Index(actor, "ATOK"); i >= 0 {
 			if j := strings.Index(actor[i:], "X"); j > 0 {
@@ -198,6 +201,9 @@ func (w *World) Describe(it Item, ok bool) string {
 	case "actor":
 		return "actor " + ActorTok(it.A)
 	case "act":
+		if w.Actors[it.A].Outbox[it.B].Bad == "no-actor" {
+			return "activity of nobody on " + PostTok(w.Actors[it.A].Outbox[it.B].Post)
+		}
 		return "activity of " + ActorTok(it.A) + " on " + PostTok(w.Actors[it.A].Outbox[it.B].Post)
 	}
 	return "failure"
